@@ -36,6 +36,10 @@ package getoptions
 //@       && (forall i int :: 0 <= i && i < len(result0) - 1 ==> NoArgs(result0[i]))
 //@       && ArgsAre(result0[len(result0) - 1], TokVal(s))
 //@   ensures isopt.single.count {C07}: IsShort(s) && mode == SingleDash ==> len(result0) == 1
+// -xREST is --x=REST: the option letter followed by the attached value gives back the token text after the dash, byte for byte.
+//@   ensures isopt.single.text {C07,C01}: IsShort(s) && mode == SingleDash ==> len(result0[0].Option) >= 1
+//@       && result0[0].Option ++ ite(len(result0[0].Args) == 1, result0[0].Args[0], "") == substr(s, 1, len(s)) && len(result0[0].Args) <= 1
+//@       && (len(result0[0].Args) == 1 ==> result0[0].Args[0] != "")
 //@   loop "for _, option := range strings.Split(match[2], \"\")"
 //@     invariant bundle.len: len(opts) == $idx + 1
 //@     invariant bundle.names: forall i int :: 0 <= i && i <= $idx ==> opts[i].Option == explode(match[2])[i] && NoArgs(opts[i])
@@ -181,6 +185,7 @@ package getoptions
 //@   props C19
 //@   requires parse.tree: tree != nil && TreeOK()
 //@   requires parse.unk: UnkOK()
+//@   onlyflows mode isOption {C07}
 //@   allocates option.Option, []string, sliceiterator.Iterator
 //@   modifies programTree.ChildText, programTree.UnknownOptions, option.Option.Called, option.Option.UsedAlias, option.Option.MapKeysToLower,
 //@     cell(bool), cell(string), cell(int), cell(float64), cell([]string), cell([]int), cell([]float64), allmaps(map[string]string)
